@@ -41,6 +41,28 @@ func (e *Executor) Status(ctx context.Context, calls ...*Call) error {
 	return nil
 }
 
+// statusBeforeRun takes the fingerprint of the task's sources just before its
+// commands run; statusOnSuccess records it once they have all succeeded
+func (e *Executor) statusBeforeRun(t *ast.Task) (*fingerprint.TaskState, error) {
+	if e.Dry {
+		return nil, nil
+	}
+	method := t.Method
+	if method == "" {
+		method = e.Taskfile.Method
+	}
+	state, err := fingerprint.SnapshotTaskState(t, method, e.TempDir.Fingerprint)
+	if err != nil {
+		return nil, err
+	}
+	state.Invalidate()
+	return state, nil
+}
+
+func (e *Executor) statusOnSuccess(state *fingerprint.TaskState) error {
+	return state.Record()
+}
+
 func (e *Executor) statusOnError(t *ast.Task) error {
 	method := t.Method
 	if method == "" {
